@@ -162,7 +162,7 @@ class Renderer:
             e = self.sym(mod, it["fn"], f["module"], it.get("form", "from"), imports) + f"({args})"
         elif k == "hof":
             f = _fn(self.spec, it["fn"])
-            e = "pipehelp.call0(" + self.sym(mod, it["fn"], f["module"], "from", imports) + ")"
+            e = "pipehelp.call0(" + self.sym(mod, it["fn"], f["module"], it.get("form", "from"), imports) + ")"
         elif k == "method":
             f = _fn(self.spec, it["cls"])
             e = self.sym(mod, it["cls"], f["module"], it.get("form", "from"), imports) + f"().{it.get('meth', 'm')}()"
